@@ -46,6 +46,7 @@ func (o *c35) step(line string) string {
 	}
 	script := f[2:]
 	served := true
+	beyond := 0 // served chunks that are valid at the block but not for the node's chunk verifier
 	pos := 0
 	for _, want := range missing {
 		found := false
@@ -55,8 +56,11 @@ func (o *c35) step(line string) string {
 			if tok == "S" {
 				break
 			}
-			if j, err := strconv.Atoi(tok); err == nil && j == want && s.verifier.Verify(s.u.get(j).chunk) == nil {
+			if j, err := strconv.Atoi(tok); err == nil && j == want && o.validAt(vb, j) {
 				found = true
+				if s.verifier.Verify(s.u.get(j).chunk) != nil {
+					beyond++
+				}
 			}
 		}
 		if !found {
@@ -96,10 +100,22 @@ func (o *c35) step(line string) string {
 		key := "accept-fails-after-valid-chunk-served"
 		if len(missing) == 0 {
 			key = "accept-fails-with-all-chunks-local"
+		} else if beyond > 0 {
+			// known finding: the fetched chunk is verified against the node's last SetMin, not
+			// against the block that references it
+			key = "accept-rejects-chunk-valid-at-block-timestamp"
 		}
 		o.v.r.Violation(key, "Accept returned %s although every missing chunk %v is served valid by the peer script %v (%s)", out, missing, script, sig)
 	}
 	return out
+}
+
+// validAt: chunk j is a valid chunk for block vb in the terms Verify uses for its certificate:
+// well signed by a validator and vb.timestamp <= expiry <= vb.timestamp + validity window.
+func (o *c35) validAt(vb *vBlock, j int) bool {
+	c := o.v.sut.u.get(j)
+	ts := vb.blk.Timestamp
+	return c != nil && c.valid && ts <= c.chunk.Expiry && c.chunk.Expiry <= ts+o.v.sut.window
 }
 
 func TestVerifC35(t *testing.T) {
@@ -121,6 +137,9 @@ func TestVerifC35(t *testing.T) {
 		// lagging validator: it missed chunk 1 and its block, meanwhile it stored newer pending chunks
 		// of the same producer up to exactly its pending-weight limit (355+282 = 637), resp. beyond
 		// it; the chunk required by the accepted block must still be fetched and stored.
+		// known finding: verifier minimum 0, window 5; block at 3 references chunk 2 (expiry 6 <= 3+5):
+		// valid at the block, "future" for the chunk verifier, so the fetch can never succeed
+		vCfg(5, 1000000), "mk 1 0 3 1 2", "accept 1 2 2 2", "abs",
 		vCfg(40, 637), "vremote 2", "vremote 4", "rate 1", "mk 1 0 2 1 1", "accept 1 1", "abs",
 		vCfg(40, 600), "addlocal 2 n", "addlocal 4 c", "rate 1", "mk 1 0 2 1 1 7", "accept 1 E 1 7", "abs",
 		vCfg(40, 300), "addlocal 3 n", "rate 1", "mk 1 0 2 1 5 1", "accept 1 5 S", "accept 1 1", "abs",
